@@ -5,6 +5,8 @@ package interp
 
 import (
 	"bytes"
+	"errors"
+	"go/types"
 	"crypto/hmac"
 	"crypto/sha256"
 	"crypto/sha512"
@@ -92,6 +94,12 @@ func externalGlobal(i *interpreter, g *ssa.Global) value {
 	}
 	if g.Name() == "init$guard" {
 		return nil
+	}
+	// package-level error values of external packages (var ErrX = errors.New(...)): one stable sentinel per path
+	if strings.HasPrefix(g.Name(), "Err") {
+		if it, ok := mustDeref(g.Type()).Underlying().(*types.Interface); ok && it.NumMethods() == 1 && it.Method(0).Name() == "Error" {
+			return mkNativeErr(errors.New(key))
+		}
 	}
 	panic(unmodelled{"external global " + key})
 }
